@@ -365,6 +365,22 @@ func runCase(r *harness.Run, c c06Case) error {
 					return fmt.Errorf("version %s, %s, states %v: batch of the event and a genuinely signed twin with the same event ID (this event at index %d): result %d is %v, expected accept=%v", c.Version, c.Shape, c.States, map[bool]int{true: 0, false: 1}[order[0] == pdu], i, be[i], wants[i])
 				}
 			}
+			// the same batch under a context that is already cancelled: whatever the call does then, an event whose signatures
+			// do not check out must not come back as verified (a nil entry), and there is one entry per event
+			cctx, cancel := context.WithCancel(context.Background())
+			cancel()
+			var ce []error
+			if p, msg := harness.Try(func() { ce = gmsl.VerifyAllEventSignatures(cctx, order, ring, uid) }); p {
+				return fmt.Errorf("VerifyAllEventSignatures panics under a cancelled context: %s", msg)
+			}
+			if len(ce) != 2 {
+				return fmt.Errorf("VerifyAllEventSignatures under a cancelled context: %d results for 2 events", len(ce))
+			}
+			for i := range ce {
+				if ce[i] == nil && !wants[i] {
+					return fmt.Errorf("version %s, %s, states %v: under a cancelled context the batch reports event %d as verified although its signatures do not check out", c.Version, c.Shape, c.States, i)
+				}
+			}
 		}
 		r.Count("twin_batches", 2)
 	}
